@@ -712,19 +712,35 @@ func refusalView(lines []string) []string {
 		out = append(out, blk...)
 		blk = blk[:0]
 	}
+	// memory objects of blocks without any map reference: whether they are mapped at the moment depends on
+	// the mapping hysteresis alone (an internal heuristic; nobody holds a pointer into them)
+	unref := map[string]bool{}
+	for _, l := range lines {
+		f := strings.Fields(l)
+		if len(f) > 12 && f[0] == "BLK" && f[10] == "0" {
+			unref[f[5]] = true
+		}
+	}
 	for _, l := range lines {
 		f := strings.Fields(l)
 		if len(f) > 4 && f[0] == "BLK" {
 			// BLK kind idx pos blockId mem size empty allocCount sumFree mapRefs extraMapping mapped
-			// -> drop pos and the hysteresis flag (an internal heuristic, not a counter the caller can see)
+			// -> drop pos and the hysteresis flag (an internal heuristic, not a counter the caller can see),
+			//    and the mapped flag while there is no map reference
 			g := append(append([]string{}, f[:3]...), f[4:]...)
 			if len(g) > 10 {
 				g = append(g[:10], g[11:]...)
+			}
+			if len(f) > 12 && f[10] == "0" {
+				g = g[:len(g)-1]
 			}
 			blk = append(blk, strings.Join(g, " "))
 			continue
 		}
 		flush()
+		if len(f) == 5 && f[0] == "DEV" && unref[f[1]] {
+			l = strings.Join(f[:4], " ")
+		}
 		out = append(out, l)
 	}
 	flush()
